@@ -112,6 +112,12 @@ func (db *DB) basicImport(ctx context.Context, filepath string) (err error) {
 		}
 	}
 
+	// The object must be closed: a file that ends after one of its collections is incomplete.
+	_, err = d.Token()
+	if err != nil {
+		return err
+	}
+
 	return nil
 }
 
